@@ -288,7 +288,13 @@ func (d Diff) RenderMerge() (string, error) {
 			if isVoid(n) {
 				add[j] = jsonNull{}
 			} else {
-				add[j] = n
+				// Copy the value: patching below writes into
+				// objects that earlier hunks added.
+				c, err := NewJsonNode(n.raw())
+				if err != nil {
+					return "", err
+				}
+				add[j] = c
 			}
 		}
 		e.Add = add
